@@ -223,6 +223,10 @@ class RepoInterp:
                 finally:
                     self.cur_fi = saved
             return S("mod:" + target)
+        if self.cur_fi.cls is not None and self.cur_fi.qualname.endswith(".<class body>") and name in self.cur_fi.cls.attrs and name not in st.env:
+            # inside a class body (a default value of a method's parameter, another class-level constant) an earlier
+            # class-level name denotes its value
+            return self.interp.eval(self.cur_fi.cls.attrs[name], st)
         if self.cur_fi.cls is not None and self.cur_fi.qualname.endswith(".<class body>") and name in self.cur_fi.cls.methods:
             # inside a class body a method's bare name denotes the plain function (`TABLE = (method_a, method_b)`)
             return S("func:" + self.cur_fi.cls.methods[name].fq)
@@ -294,6 +298,17 @@ class RepoInterp:
         if isinstance(obj, S) and obj.name.startswith("class:"):
             mn_m, _, cn_m = obj.name[len("class:"):].rpartition(".")
             ci_m = self.repo.cls(mn_m, cn_m, required=False)
+            is_enum = ci_m is not None and any(b.split(".")[-1] in ("Enum", "IntEnum", "Flag", "IntFlag", "StrEnum") for c_e in self.repo.mro(ci_m) for b in c_e.bases)
+            if ci_m is not None and not is_enum and not isinstance(getattr(node, "ctx", None), ast.Store):  # (an Enum's names denote member objects, not the values written)
+                for c_m in self.repo.mro(ci_m):
+                    if attr in c_m.attrs and attr not in c_m.methods:
+                        # `Class.CONSTANT`: a class-level constant read through the class
+                        saved_m = self.cur_fi
+                        self.cur_fi = FunctionInfo(c_m.module, c_m.name + ".<class body>", ast.parse("def _m(): pass").body[0], c_m)
+                        try:
+                            return self.interp.eval(c_m.attrs[attr], st)
+                        finally:
+                            self.cur_fi = saved_m
             m_m = self.repo.method(ci_m, attr) if ci_m is not None else None
             if m_m is not None and not isinstance(getattr(node, "ctx", None), ast.Store) and getattr(self, "class_methods_as_values", True) \
                     and ("staticmethod" in m_m.decorators()):
@@ -1469,7 +1484,16 @@ class RepoInterp:
             sub.env[a.kwarg.arg] = R("dict", items=tuple((K(k), v) for k, v in kwargs.items() if k not in known))
         for p, d in callee.defaults().items():
             if p not in sub.env:
-                sub.env[p] = self.interp.eval(d, sub)
+                if callee.cls is not None:
+                    # a method's defaults were evaluated in the class body: names of class-level constants are visible there
+                    saved_d = self.cur_fi
+                    self.cur_fi = FunctionInfo(callee.module, callee.cls.name + ".<class body>", ast.parse("def _m(): pass").body[0], callee.cls)
+                    try:
+                        sub.env[p] = self.interp.eval(d, sub)
+                    finally:
+                        self.cur_fi = saved_d
+                else:
+                    sub.env[p] = self.interp.eval(d, sub)
         for p in params:
             if p not in sub.env:
                 sub.env[p] = U("unbound " + p)
